@@ -179,3 +179,26 @@ Example C06_nonvacuous_boundary :
   info_size (p_int (ex_big 65528)) [] = 65540 /\
   encode 0 (ex_big 65528) = Err e_toolarge.
 Proof. repeat split; vm_compute; reflexivity. Qed.
+
+(* ---------- tools/gotrans phase 3: ttheader.Encode, writeKVInfo and the Write* helpers regenerated from protocol/ttheader/encode.go, utils.go and proved equal to Model/TTHeader.v over the hand model's writer (Proofs/GenEquivTTHEnc.v); map iteration orders are parameters (os, oi) ---------- *)
+From GV Require Import Lib.GoSem Gen.Funcs Proofs.GenLib Proofs.GenLib3 Proofs.GenEquivTTHEnc Proofs.GenCorollariesTTHEnc.
+
+Theorem C06_gen_encode_ok :
+  forall dirt : bytes -> Z -> bytes, (forall (st : bytes) (n : Z), (0 <= n)%Z -> glen (dirt st n) = n) -> (forall (st : bytes) (n : Z), wf (dirt st n)) -> forall (fuel : nat) (fl sq pid : Z) (mi : gmap Z bytes) (ms : gmap bytes bytes) (st0 : bytes) (os : list bytes) (oi : list Z), (0 <= fl < 65536)%Z -> (0 <= pid < 256)%Z -> gmap_order_ok ms os -> gmap_order_ok mi oi -> (forall k : Z, In k oi -> (0 <= k < 65536)%Z) -> (4 < fuel)%nat -> (Z.of_nat (Datatypes.length os) < 2 ^ 62)%Z -> (Z.of_nat (Datatypes.length oi) < 2 ^ 62)%Z -> info_size (p_int (gparam fl sq pid mi ms os oi)) (p_str (gparam fl sq pid mi ms os oi)) < two32 -> forall b : bytes, encode (unbe (take 4 (dirt st0 14%Z))) (gparam fl sq pid mi ms os oi) = Ok b -> g_ttheader_Encode bytes (xmalloc dirt) xwb xpoke fuel fl sq pid mi ms st0 os oi = Ok (st0 ++ b, (glen st0, 4%Z), gnil).
+Proof. exact (@g_encode_ok). Qed.
+
+Theorem C06_gen_encode_err :
+  forall dirt : bytes -> Z -> bytes, (forall (st : bytes) (n : Z), (0 <= n)%Z -> glen (dirt st n) = n) -> (forall (st : bytes) (n : Z), wf (dirt st n)) -> forall (fuel : nat) (fl sq pid : Z) (mi : gmap Z bytes) (ms : gmap bytes bytes) (st0 : bytes) (os : list bytes) (oi : list Z), (0 <= fl < 65536)%Z -> (0 <= pid < 256)%Z -> gmap_order_ok ms os -> gmap_order_ok mi oi -> (forall k : Z, In k oi -> (0 <= k < 65536)%Z) -> (4 < fuel)%nat -> (Z.of_nat (Datatypes.length os) < 2 ^ 62)%Z -> (Z.of_nat (Datatypes.length oi) < 2 ^ 62)%Z -> info_size (p_int (gparam fl sq pid mi ms os oi)) (p_str (gparam fl sq pid mi ms os oi)) < two32 -> forall e : Z, encode (unbe (take 4 (dirt st0 14%Z))) (gparam fl sq pid mi ms os oi) = Err e -> exists st' : bytes, g_ttheader_Encode bytes (xmalloc dirt) xwb xpoke fuel fl sq pid mi ms st0 os oi = Ok (st', gregion_nil, Some e).
+Proof. exact (@g_encode_err). Qed.
+
+Theorem C06_gen_enc_fail_iff_nowrap :
+  forall dirt : bytes -> Z -> bytes, (forall (st : bytes) (n : Z), (0 <= n)%Z -> glen (dirt st n) = n) -> (forall (st : bytes) (n : Z), wf (dirt st n)) -> forall (fuel : nat) (fl sq pid : Z) (mi : gmap Z bytes) (ms : gmap bytes bytes) (st0 : bytes) (os : list bytes) (oi : list Z), (0 <= fl < 65536)%Z -> (0 <= pid < 256)%Z -> gmap_order_ok ms os -> gmap_order_ok mi oi -> (forall k : Z, In k oi -> (0 <= k < 65536)%Z) -> (4 < fuel)%nat -> (Z.of_nat (Datatypes.length os) < 2 ^ 62)%Z -> (Z.of_nat (Datatypes.length oi) < 2 ^ 62)%Z -> info_size (p_int (gparam fl sq pid mi ms os oi)) (p_str (gparam fl sq pid mi ms os oi)) < two32 -> (L_max < info_size (p_int (gparam fl sq pid mi ms os oi)) (p_str (gparam fl sq pid mi ms os oi)) -> exists st' : bytes, g_ttheader_Encode bytes (xmalloc dirt) xwb xpoke fuel fl sq pid mi ms st0 os oi = Ok (st', gregion_nil, Some e_toolarge)) /\ (info_size (p_int (gparam fl sq pid mi ms os oi)) (p_str (gparam fl sq pid mi ms os oi)) <= L_max -> exists b : list N, g_ttheader_Encode bytes (xmalloc dirt) xwb xpoke fuel fl sq pid mi ms st0 os oi = Ok (st0 ++ b, (glen st0, 4%Z), gnil) /\ encode (unbe (take 4 (dirt st0 14%Z))) (gparam fl sq pid mi ms os oi) = Ok b).
+Proof. exact (@g_C06_enc_fail_iff_nowrap). Qed.
+
+Theorem C06_gen_enc_layout :
+  forall dirt : bytes -> Z -> bytes, (forall (st : bytes) (n : Z), (0 <= n)%Z -> glen (dirt st n) = n) -> (forall (st : bytes) (n : Z), wf (dirt st n)) -> forall (fuel : nat) (fl sq pid : Z) (mi : gmap Z bytes) (ms : gmap bytes bytes) (st0 : bytes) (os : list bytes) (oi : list Z), (0 <= fl < 65536)%Z -> (0 <= pid < 256)%Z -> gmap_order_ok ms os -> gmap_order_ok mi oi -> (forall k : Z, In k oi -> (0 <= k < 65536)%Z) -> (4 < fuel)%nat -> (Z.of_nat (Datatypes.length os) < 2 ^ 62)%Z -> (Z.of_nat (Datatypes.length oi) < 2 ^ 62)%Z -> info_size (p_int (gparam fl sq pid mi ms os oi)) (p_str (gparam fl sq pid mi ms os oi)) < two32 -> forall b : bytes, params_wf (gparam fl sq pid mi ms os oi) -> encode (unbe (take 4 (dirt st0 14%Z))) (gparam fl sq pid mi ms os oi) = Ok b -> g_ttheader_Encode bytes (xmalloc dirt) xwb xpoke fuel fl sq pid mi ms st0 os oi = Ok (st0 ++ b, (glen st0, 4%Z), gnil) /\ frame (Z.to_N fl) sq (Z.to_N pid) (p_int (gparam fl sq pid mi ms os oi)) (p_str (gparam fl sq pid mi ms os oi)) b /\ len b = L_meta + 4 * field_at b 12 2 /\ len b = L_meta + info_size (p_int (gparam fl sq pid mi ms os oi)) (p_str (gparam fl sq pid mi ms os oi)) /\ info_size (p_int (gparam fl sq pid mi ms os oi)) (p_str (gparam fl sq pid mi ms os oi)) <= L_max.
+Proof. exact (@g_C06_enc_layout). Qed.
+
+Theorem C06_gen_roundtrip :
+  forall dirt : bytes -> Z -> bytes, (forall (st : bytes) (n : Z), (0 <= n)%Z -> glen (dirt st n) = n) -> (forall (st : bytes) (n : Z), wf (dirt st n)) -> forall (fuel : nat) (fl sq pid : Z) (mi : gmap Z bytes) (ms : gmap bytes bytes) (st0 : bytes) (os : list bytes) (oi : list Z), (0 <= fl < 65536)%Z -> (0 <= pid < 256)%Z -> gmap_order_ok ms os -> gmap_order_ok mi oi -> (forall k : Z, In k oi -> (0 <= k < 65536)%Z) -> (4 < fuel)%nat -> (Z.of_nat (Datatypes.length os) < 2 ^ 62)%Z -> (Z.of_nat (Datatypes.length oi) < 2 ^ 62)%Z -> info_size (p_int (gparam fl sq pid mi ms os oi)) (p_str (gparam fl sq pid mi ms os oi)) < two32 -> forall (os0 : list bytes) (oi0 : list Z) (b : bytes) (payload : list N), gmap_order_ok ms os0 -> gmap_order_ok mi oi0 -> NoDup (map Z.to_N oi0) -> params_wf (gparam fl sq pid mi ms os oi) -> In (Z.to_N pid) L_pids -> encode (unbe (take 4 (dirt st0 14%Z))) (gparam fl sq pid mi ms os oi) = Ok b -> len b + len payload - 4 < two32 -> g_ttheader_Encode bytes (xmalloc dirt) xwb xpoke fuel fl sq pid mi ms st0 os oi = Ok (st0 ++ b, (glen st0, 4%Z), gnil) /\ (exists r : dparam, decode (set_total b (len b + len payload - 4) ++ payload) = (len b, Ok r) /\ d_flags r = Z.to_N fl /\ d_seq r = sq /\ d_pid r = Z.to_N pid /\ map_back N.eqb (d_int r) (int_entries mi oi0) /\ map_back beqb (d_str r) (str_entries ms os0) /\ d_hlen r = Z.of_N (len b) /\ d_plen r = Z.of_N (len payload)).
+Proof. exact (@g_C06_roundtrip). Qed.
